@@ -103,6 +103,73 @@ func exampleUnit() harness.Unit {
 	}}
 }
 
+// identityFormsUnit: an identity is a byte string; the EMPTY one has two spellings in Go (nil and a
+// non-nil slice of length 0) and one meaning in the standard (ENTL = 0). Every pair of identities
+// over {nil, empty, one byte, the 16-byte default identity, 17 bytes} runs through the common check,
+// and for the empty identity the two parties use DIFFERENT spellings - they must still agree with
+// each other and with the standard.
+func identityFormsUnit() harness.Unit {
+	return harness.Unit{Name: "identity-forms", Run: func(c *harness.Ctx) {
+		A := mkParty(hexInt("81EB26E941BB5AF16DF116495F90695272AE2CD63D6C4AE1678418BE48230029"))
+		B := mkParty(hexInt("785129917D45A9EA5437A59356B82338EAADDA6CEB199088F14AE10DEFA229B5"))
+		rA := mkParty(hexInt("D4DE15474DB74D06491C440D305E012400990F3E390C7E87153C12DB2EA60BB3"))
+		rB := mkParty(hexInt("7E07124814B309489125EAED101113164EBF0F3458C5BD88335C1F9D596243D6"))
+		type idf struct {
+			name string
+			b    []byte
+		}
+		forms := []idf{{"nil", nil}, {"empty", []byte{}}, {"one byte", []byte{0x31}}, {"default 16 bytes", []byte("1234567812345678")}, {"17 bytes", []byte("12345678123456789")}}
+		for _, fa := range forms {
+			for _, fb := range forms {
+				exchange(c, fmt.Sprintf("idA=%s idB=%s klen=16", fa.name, fb.name), 16, fa.b, fb.b, A, B, rA, rB)
+			}
+		}
+		// the same empty identity spelled differently by the two parties
+		spell := [][]byte{nil, {}}
+		for ia := 0; ia < 2; ia++ {
+			for ib := 0; ib < 2; ib++ {
+				for _, other := range []idf{{"empty", []byte{}}, {"default 16 bytes", []byte("1234567812345678")}} {
+					for _, emptyIsA := range []bool{true, false} {
+						tag := fmt.Sprintf("empty identity of %s spelled %v by A and %v by B, other identity %s", map[bool]string{true: "A", false: "B"}[emptyIsA], []string{"nil", "[]byte{}"}[ia], []string{"nil", "[]byte{}"}[ib], other.name)
+						idAforA, idBforA, idAforB, idBforB := spell[ia], other.b, spell[ib], other.b
+						if !emptyIsA {
+							idAforA, idBforA, idAforB, idBforB = other.b, spell[ia], other.b, spell[ib]
+						}
+						c.Add("evaluations", 1)
+						c.DistinctS("nontrivial", tag)
+						ref, err := refsm2.KeyExchange(16, append([]byte{}, idAforA...), append([]byte{}, idBforA...), A.d, A.p, B.p, rA.d, rA.p, rB.p, true)
+						if err != nil {
+							continue
+						}
+						var ka, kb []byte
+						var ea, eb error
+						if c.Guard("kx-panic:A", "KeyExchangeA ["+tag+"]", nil, func() {
+							ka, _, _, ea = sm2.KeyExchangeA(16, idAforA, idBforA, libKey(A.d, A.p), &libKey(B.d, B.p).PublicKey, libKey(rA.d, rA.p), &libKey(rB.d, rB.p).PublicKey)
+						}) {
+							continue
+						}
+						if c.Guard("kx-panic:B", "KeyExchangeB ["+tag+"]", nil, func() {
+							kb, _, _, eb = sm2.KeyExchangeB(16, idAforB, idBforB, libKey(B.d, B.p), &libKey(A.d, A.p).PublicKey, libKey(rB.d, rB.p), &libKey(rA.d, rA.p).PublicKey)
+						}) {
+							continue
+						}
+						if ea != nil || eb != nil {
+							c.Violate("kx-error:identity-forms", fmt.Sprintf("[%s] honest exchange failed: A=%v B=%v", tag, ea, eb), nil, nil)
+							continue
+						}
+						if !bytes.Equal(ka, kb) {
+							c.Violate("kx-sides-differ:K:identity-spelling", fmt.Sprintf("[%s] initiator key %x != responder key %x", tag, ka, kb), nil, nil)
+						} else if !bytes.Equal(ka, ref.K) {
+							c.Violate("kx-key-vs-standard:identity-spelling", fmt.Sprintf("[%s] shared key %x, GM/T 0003.3 prescribes %x", tag, ka, ref.K), nil, nil)
+						}
+					}
+				}
+			}
+		}
+		c.Sample("5 x 5 identity forms incl. nil and empty; the empty identity spelled nil by one party and []byte{} by the other")
+	}}
+}
+
 func productUnit(ai int, tier string) harness.Unit {
 	return harness.Unit{Name: fmt.Sprintf("product/keyA=%d", ai), Run: func(c *harness.Ctx) {
 		keys := sm2k.Alphabet()
@@ -289,7 +356,7 @@ var Prop = &harness.Prop{
 		return "all 12x12x12 (A,B,ephemeral-index) combinations with key and identity lengths rotated pairwise" + map[bool]string{true: "; full product of 15 key lengths x 5 x 5 identity lengths on 4 key combinations", false: ""}[tier == "thorough"]
 	},
 	Units: func(tier string) []harness.Unit {
-		u := []harness.Unit{exampleUnit(), shortVUnit(), rejectUnit(), coincidenceUnit()}
+		u := []harness.Unit{exampleUnit(), shortVUnit(), rejectUnit(), coincidenceUnit(), identityFormsUnit()}
 		for i := range sm2k.Alphabet() {
 			u = append(u, productUnit(i, tier))
 		}
